@@ -152,21 +152,13 @@ def run(ctx: Ctx) -> None:
         ctx.check(not leaked, "H1", name, repo.loc("pprint", repo.func("pprint.PrettyPrinter._format")), f"{len(lines)} lines, no hidden value", f"hidden key data reaches the output: {leaked}")
 
     # ---- D1 dispatch completeness -------------------------------------------------------------------
-    ctx.rule("D1", "PrettyPrinter._format tests hidden keys, object lists, the grammar's special blocks, repeated keys and composites before falling back to the generic attribute writer", 1)
-    fmt = repo.func("pprint.PrettyPrinter._format")
-    generic = [c for c in calls_in(fmt) if isinstance(c.func, ast.Attribute) and c.func.attr == "process_attribute"]
-    if not generic:
-        raise AnalysisError("anchor vanished: process_attribute call in _format")
+    ctx.rule("D1", "every keyword that needs its own writer (the grammar's keyword-introduced blocks, object lists, singleton blocks, repeated keywords) is written in that shape and never by the generic KEY value writer (evaluated)", 8)
     from .c19 import special_block_rules
 
-    special = set(special_block_rules(G))
-    for c in generic:
-        gs = guards_at(fmt, c)
-        neg = " ; ".join(str(g) for g in gs if not g.positive)
-        missing = [w for w in sorted(special) if f"'{w}'" not in neg]
-        other = [w for w in ("__is_metadata", "is_hidden_container", "REPEATED_KEYS", "is_composite") if w not in neg]
-        ctx.check(not missing and not other, "D1", "generic writer is the last resort", repo.loc("pprint", c), "all special cases excluded first", f"the generic attribute writer is reachable for {missing + other}: such a key would be written as a plain KEY value line")
-
+    fmt = repo.func("pprint.PrettyPrinter._format")
+    shapes = printer.dispatch_shapes(e, special_block_rules(G), repo.const("tokens", "OBJECT_LIST_KEYS"), repo.const("tokens", "REPEATED_KEYS"))
+    for kw, okk, desc in shapes:
+        ctx.check(okk, "D1", f"{kw.upper()} is written by its own writer", repo.loc("pprint", fmt), desc, f"a {kw.upper()} value is written as {desc!r}: not the block / repeated-line shape the grammar reads back (the generic KEY value writer, or nothing, was used)")
 
 def _judge(t, k, vc, q, kind, tmpl, val):
     exp = vc.expect
